@@ -138,6 +138,55 @@ pub mod proofs {
         assert!(det.next([y])[0] == y.abs());
     }
 
+    // -------------------------------------------------------------------- signal adaptors (C19 / C11 adaptor clauses)
+    use dasp_signal::{self as signal, Signal, envelope::SignalEnvelope, rms::SignalRms};
+    /// a source that counts how often it is pulled (frames are symbolic dyadic values)
+    struct Counted { frames: [[f32; 1]; 3], pos: usize }
+    impl Signal for Counted {
+        type Frame = [f32; 1];
+        fn next(&mut self) -> [f32; 1] { let f = if self.pos < 3 { self.frames[self.pos] } else { [0.0] }; self.pos += 1; f }
+        fn is_exhausted(&self) -> bool { self.pos >= 3 }
+    }
+    /// detect_envelope feeds EACH source frame once, in order, to the detector and yields what the detector returns;
+    /// changing attack / release through the adaptor reaches the detector; exhaustion is the source's
+    #[kani::proof] #[kani::unwind(5)]
+    pub fn c19_adaptor_detect_envelope() {
+        let frames = [[dyadic(4, 4)], [dyadic(4, 4)], [dyadic(4, 4)]];
+        // ONE detector, cloned: CBMC over-approximates powf nondeterministically, two constructions may get different gains
+        let det: Detector<[f32; 1], _> = Detector::peak(0.0, 7.0);
+        let mut direct = det.clone();
+        let mut ad = Counted { frames, pos: 0 }.detect_envelope(det);
+        let mut i = 0;
+        while i < 3 {
+            assert!(ad.is_exhausted() == false);
+            if i == 2 { ad.set_release_frames(0.0); direct.set_release_frames(0.0); }
+            let a = ad.next(); let d = direct.next(frames[i]);
+            assert!(a[0].to_bits() == d[0].to_bits(), "P: adaptor output == detector output for the i-th source frame");
+            i += 1;
+        }
+        assert!(ad.is_exhausted());
+        let (src, det) = ad.into_parts();
+        assert!(src.pos == 3, "P: exactly one source frame pulled per output");
+        assert!(det.verif_gains() == direct.verif_gains() && det.verif_last_env()[0].to_bits() == direct.verif_last_env()[0].to_bits());
+    }
+    /// the rms adaptor feeds EACH source frame once, in order, to the running RMS
+    #[kani::proof] #[kani::unwind(5)]
+    pub fn c11_adaptor_rms() {
+        let frames = [[dyadic(8, 8)], [dyadic(8, 8)], [dyadic(8, 8)]];
+        let mut direct: Rms<[f32; 1], [[f32; 1]; 2]> = Rms::new(rb::Fixed::from([[0.0f32; 1]; 2]));
+        let mut ad = Counted { frames, pos: 0 }.rms(rb::Fixed::from([[0.0f32; 1]; 2]));
+        let a0 = ad.next(); let d0 = direct.next(frames[0]);
+        assert!(a0[0].to_bits() == d0[0].to_bits(), "P: adaptor output == running RMS of the source frames");
+        let a1 = ad.next_squared(); let d1 = direct.next_squared(frames[1]);
+        assert!(a1[0].to_bits() == d1[0].to_bits(), "P: adaptor next_squared == running mean square of the source frames");
+        assert!(!ad.is_exhausted());
+        let a2 = ad.next(); let d2 = direct.next(frames[2]);
+        assert!(a2[0].to_bits() == d2[0].to_bits(), "P: adaptor output == running RMS of the source frames");
+        assert!(ad.is_exhausted());
+        let (src, _r) = ad.into_parts();
+        assert!(src.pos == 3, "P: exactly one source frame pulled per output");
+    }
+
     // -------------------------------------------------------------------- windowed RMS (C11)
     fn mean_sq(h: &[f32], n: usize, upto: usize) -> f32 {
         let mut s = 0.0f32; let mut i = 0;
